@@ -262,7 +262,7 @@ pub fn ma_oracle(s: &str) -> Option<MA> {
 	ma_of(name, val as PeriodType)
 }
 
-fn check_source_text(s: &str) -> CaseResult {
+pub fn check_source_text(s: &str) -> CaseResult {
 	let e = source_oracle(s);
 	let got = s.parse::<Source>().ok();
 	ensure!(got == e, "C18:source-parse", "{:?}.parse::<Source>() = {:?} expected {:?}", s, got, e);
@@ -270,7 +270,7 @@ fn check_source_text(s: &str) -> CaseResult {
 	Ok(())
 }
 
-fn check_ma_text(s: &str) -> CaseResult {
+pub fn check_ma_text(s: &str) -> CaseResult {
 	let e = ma_oracle(s);
 	let got = s.parse::<MA>().ok();
 	ensure!(got == e, "C18:ma-parse", "{:?}.parse::<MA>() = {:?} expected {:?}", s, got, e);
@@ -390,6 +390,7 @@ pub fn def(tier: Tier) -> PropertyDef {
 		checks.push(pt(&format!("text_{i}"), tier.pick(20000, 200000), text_strategy(), run_text));
 	}
 	let _ = fail_unused;
+	checks.extend(crate::fuzz_entry::corpus_checks("C18"));
 	PropertyDef {
 		id: "C18",
 		level: "exploration",
